@@ -93,7 +93,7 @@ Definition mbstowcs_s (c : cfg) (utf8 : bool) (retvalp dest dmax src len destbos
   let w := wchar_w c in
   if retvalp =? 0 then fail_str ESNULLP
   else Store 8 retvalp 0 (
-    if src =? 0 then handle_error c w dest dmax ESNULLP ;;; Ret ESNULLP
+    if src =? 0 then (if (dest =? 0) || (dmax =? 0) then fail_str ESNULLP else handle_error c w dest dmax ESNULLP ;;; Ret ESNULLP)   (* after the fixes: a null or empty dest is not cleared *)
     else
       let after_checks : prog Z :=
         if dest =? src then Ret ESOVRLP
